@@ -241,3 +241,77 @@ var RevertRuntime = []byte{0x60, 0x01, 0x60, 0x00, 0x55, 0x60, 0x00, 0x60, 0x00,
 func ContractAddr(from common.Address, nonce uint64) common.Address {
 	return ecrypto.CreateAddress(from, nonce)
 }
+
+// ProbeRuntime computes a fixed set of arithmetic / bit operations on constants and stores every
+// result in its own storage slot (0x20..): whatever process-wide state of the VM (constants, pooled
+// integers, caches) an earlier execution of the process damaged shows in the state root.
+var ProbeRuntime = buildProbe()
+
+func buildProbe() []byte {
+	type t struct {
+		args []byte // pushed in this order (last pushed = top of stack = first operand)
+		op   byte
+	}
+	tests := []t{
+		{[]byte{7, 5, 4}, 0x09},    // MULMOD(4,5,7)
+		{[]byte{7, 5, 4}, 0x08},    // ADDMOD(4,5,7)
+		{[]byte{0, 5, 4}, 0x09},    // MULMOD(4,5,0) = 0
+		{[]byte{0, 5, 4}, 0x08},    // ADDMOD(4,5,0) = 0
+		{[]byte{5, 3}, 0x0a},       // EXP(3,5)
+		{[]byte{3, 200}, 0x04},     // DIV(200,3)
+		{[]byte{0, 200}, 0x04},     // DIV(200,0)
+		{[]byte{3, 200}, 0x05},     // SDIV
+		{[]byte{7, 200}, 0x06},     // MOD
+		{[]byte{0, 200}, 0x06},     // MOD by 0
+		{[]byte{7, 200}, 0x07},     // SMOD
+		{[]byte{0x80, 0}, 0x0b},    // SIGNEXTEND(0, 0x80)
+		{[]byte{0xff, 31}, 0x1a},   // BYTE(31, 0xff)
+		{[]byte{1, 255}, 0x1b},     // SHL(255, 1)
+		{[]byte{0x80, 4}, 0x1c},    // SHR(4, 0x80)
+		{[]byte{0x80, 4}, 0x1d},    // SAR(4, 0x80)
+		{[]byte{9, 9}, 0x14},       // EQ
+		{[]byte{9, 8}, 0x10},       // LT(8,9)
+		{[]byte{9, 8}, 0x12},       // SLT
+		{[]byte{0}, 0x15},          // ISZERO(0)
+		{[]byte{0}, 0x19},          // NOT(0)
+		{[]byte{200, 100}, 0x03},   // SUB(100,200) wraps
+		{[]byte{0x0f, 0xf0}, 0x18}, // XOR
+	}
+	var rt []byte
+	for i, x := range tests {
+		for _, a := range x.args {
+			rt = append(rt, 0x60, a)
+		}
+		rt = append(rt, x.op, 0x60, byte(0x20+i), 0x55)
+	}
+	if len(rt) > 250 {
+		panic("probe runtime too long for Deploy")
+	}
+	return append(rt, 0x00)
+}
+
+// FuzzRuntime returns a short random byte string used as contract code: invalid opcodes, stack
+// underflows, jumps into nowhere and PUSHn whose data runs past the end of the code included.
+func FuzzRuntime(next func(n int) int) []byte {
+	n := 1 + next(24)
+	rt := make([]byte, n)
+	for i := range rt {
+		rt[i] = byte(next(256))
+	}
+	switch next(4) {
+	case 0: // nothing but a few pushes, the last one with its data running past the end of the code
+		rt = rt[:0]
+		for i := next(3); i > 0; i-- {
+			rt = append(rt, 0x60, byte(next(256)))
+		}
+		w := []int{0, 0, 0, 1, 31, next(32)}[next(6)] // PUSH(w+1) followed by fewer than w+1 bytes
+		rt = append(rt, byte(0x60+w))
+		for i := next(w + 1); i > 0; i-- {
+			rt = append(rt, byte(next(256)))
+		}
+	case 1: // a few well-formed pushes first, so that later opcodes find operands
+		pre := []byte{0x60, byte(next(256)), 0x60, byte(next(256)), 0x60, byte(next(256))}
+		rt = append(pre, rt...)
+	}
+	return rt
+}
